@@ -63,3 +63,35 @@ for _f, _spec, _props in [
             bound=BOUND,
             covers=["return"],
         )(_binary(_f, _spec)(_na, _nb))
+
+
+def _lists_equal(na, nb):
+    def c(h):
+        s, a, b, la, lb = _setup(h, na, nb)
+        out = h.call(h.I.get_func(L + ":lists_equal"), [la, lb])
+        h.check("C14.lists_equal.no_exception", out.kind == "return", "raised %s at %s" % (out.exc_name, out.where))
+        if out.kind != "return":
+            return
+        h.cover("return")
+        r = out.value
+        rr = r if isinstance(r, z3.BoolRef) else z3.BoolVal(bool(r))
+        eq = lambda e, lst: z3.Or(*[s.same_term(e, o) for o in lst]) if lst else z3.BoolVal(False)
+        # the same elements: each element of either list occurs in the other (what `shares_io_with` - the guard of every
+        # refinement test - means by equal interfaces)
+        spec = z3.And(*([eq(e, b) for e in a] + [eq(e, a) for e in b])) if (a or b) else z3.BoolVal(True)
+        h.ensure("C06.lists_equal.iff_same_elements", rr == spec)
+        h.check("C13.lists_equal.operands_unchanged", la.items == a and lb.items == b, "an argument list was modified")
+        h.frame_ok(out, "C13.frame")
+
+    return c
+
+
+for _na, _nb in [(0, 0), (1, 0), (0, 1), (1, 1), (2, 1), (1, 2), (2, 2), (3, 2)]:
+    contract(
+        "lists.lists_equal[%d,%d elements compared by PolyhedralTerm.__eq__]" % (_na, _nb),
+        ["C06", "C03", "C13", "C14"],
+        [L + ":lists_equal", L + ":list_diff", EQ],
+        "S",
+        bound=BOUND,
+        covers=["return"],
+    )(_lists_equal(_na, _nb))
